@@ -88,9 +88,11 @@ fn parse_args() -> Args {
 
 /// Deterministic witnesses of known findings and fixed defects; run once (shard 0).
 fn witnesses(ctx: &mut Ctx) {
-    match ctx.prop.as_str() {
+    let prop = ctx.prop.clone();
+    match prop.as_str() {
         "C02" => tokprops::c02_witness_many_nodes(ctx),
         "C03" => tokprops::c03_witness_astral(ctx),
+        "C06" | "C13" if ctx.flavour != "avx2" => tokprops2::c06_witness_65536_ids(ctx, &prop),
         "C07" => dictprops::c07_witnesses(ctx),
         "C10" => miscprops::c10_witnesses(ctx),
         "C14" => trainprops::c14_witness_no_bigram_feature(ctx),
